@@ -22,13 +22,18 @@ let augment_case (fs : t list) : t =
     let toks = List.map (fun x -> match x with
         | L [A k; o; l] -> { a_kind = akind_of k; a_off = nat_of_int (int_of o); a_line = nat_of_int (int_of l) }
         | _ -> raise (Parse_error "atok")) (field "toks" rest) in
-    (match augment (bytes_of src) toks (nat_of_int (int_of eline)) (int_of serr <> 0) with
+    let srcb = bytes_of src in
+    let shape = match find (nat_of_int (List.length srcb)) (nat_of_int (int_of eline)) toks with
+      | Some augs -> sx_bool (augs_okb (nat_of_int (List.length srcb)) augs)
+      | None -> A "diverges" in
+    (match augment srcb toks (nat_of_int (int_of eline)) (int_of serr <> 0) with
      | AugScanError -> L [A "result"; A "scan-error"]
      | AugDiverges -> L [A "result"; A "diverges"]
      | AugPanics -> L [A "result"; A "panics"]
      | AugOk (out, augs, adjs) ->
        L [A "result"; A "ok"; sx_bytes out; L (List.map sx_aug augs);
-          L (List.map (fun a -> L [sx_int (int_of_nat a.adj_off); sx_int (int_of_nat a.adj_reduce)]) adjs)])
+          L (List.map (fun a -> L [sx_int (int_of_nat a.adj_off); sx_int (int_of_nat a.adj_reduce)]) adjs); shape;
+          sx_bool (wfb (nat_of_int (List.length srcb)) toks)])
   | _ -> raise (Parse_error "augment")
 
 let handle (x : t) : t option =
